@@ -4,6 +4,9 @@ serialize / serialize_pretty emit RFC 8259 text that parses back to an equal val
 Oracle: spec/json/Json8259.tla (Part 1 = RFC 8259 written from the ABNF; Part 2 = transcription of parser.rs
 with named deviations; Part 3 = transcription of serialize.rs).  Python only orchestrates.
 
+0. JsonMachine.tla: parser.rs as a state machine (one action per loop iteration, the Rust call stack explicit):
+   TLC checks on all inputs of the bound that it terminates, that it stops with the RFC's answer, that
+   self.depth counts the open containers and stays within max_depth; each deviation is refuted.
 1. TLC enumerates bounded input spaces AS STATES (one token appended per step) and on every string checks
    the model of the code against the RFC definition (accept <=> IsJson /\\ Depth <= d for several d, value =
    denotation, member order, depth-by-scan = depth-by-parse, serialiser model round-trips).  In the same pass
@@ -29,7 +32,9 @@ DEVS = ("LenientNumber", "MissingComma", "PlusInUnicodeEscape")
 SENS = [("MC_Json8259_dev_%s.cfg" % d, d) for d in DEVS] + \
        [("MC_Json8259_bug_%s.cfg" % b, "Bug" + b) for b in
         ("ArrayTrailingComma", "DepthOffByOne", "ControlInString", "LiteralPrefix", "MemberOrder",
-         "SerRawControl", "SerNoQuoteEscape", "SerPrettyComma")]
+         "SerRawControl", "SerNoQuoteEscape", "SerPrettyComma", "GetMutNoInsert")]
+MACHINE_ACTIONS = ["M_Extend", "M_Start", "PV_Enter", "Str_Step", "Lit_Scan", "Ret", "Arr_Loop", "Arr_After", "Obj_Loop", "Obj_Colon", "Eof"]
+MACHINE_SENS = [("MC_JsonMachine_dev_%s.cfg" % d, d) for d in DEVS] + [("MC_JsonMachine_bug_DepthOffByOne.cfg", "BugDepthOffByOne")]
 CHUNK = 30000
 
 
@@ -65,7 +70,7 @@ def enum_replay(jb, r, limit):
     return res[0]
 
 
-def trace_validate(path, cfg="Trace_Json8259.cfg", wid="c13t"):
+def trace_validate(path, cfg="Trace_Json8259.cfg", wid="c13t", par=1):
     """Validate an ndjson log with TLC, in chunks. Returns (records, [(line_index, why)], [TLCResult])."""
     lines = [l for l in open(path).read().split("\n") if l.strip()]
     chunks = [lines[i:i + CHUNK] for i in range(0, len(lines), CHUNK)] or [[]]
@@ -92,7 +97,7 @@ def trace_validate(path, cfg="Trace_Json8259.cfg", wid="c13t"):
             rej = [(k * CHUNK + x["i"] - 1, x["why"]) for x in rr[-1]["rejected"]]
         return t, rej
 
-    with cf.ThreadPoolExecutor(max_workers=2) as ex:
+    with cf.ThreadPoolExecutor(max_workers=par) as ex:
         for t, rej in ex.map(one, range(len(chunks))):
             runs.append(t)
             rejected += rej
@@ -134,12 +139,24 @@ def lane_spaces(jb, limit, spaces, workers, tag):
     return res
 
 
-def lane_sens(cfgs):
+def lane_sens(cfgs, module="MC_Json8259.tla"):
     out = []
     for cfg, dev in cfgs:
-        r = run_tlc("MC_Json8259.tla", cfg, D, workers=1, timeout=900, work_id="c13s" + dev)
+        r = run_tlc(module, cfg, D, workers=1, timeout=900, work_id="c13s" + dev)
         out.append((cfg, dev, r))
     return out
+
+
+def lane_machine(thorough):
+    """JsonMachine.tla: parser.rs as a state machine (one action per loop iteration, explicit call stack)."""
+    runs = []
+    live = run_tlc("MC_JsonMachine.tla", "MC_JsonMachine_live.cfg", D, workers=1, coverage=True, timeout=1200, work_id="c13ml", heap="6g")
+    runs.append(("parser state machine: invariants + termination (liveness), with action coverage", "MC_JsonMachine_live.cfg", live))
+    for name, cfg in [("parser state machine, 18-token alphabet", "MC_JsonMachine_%s.cfg" % ("thorough" if thorough else "quick")),
+                      ("parser state machine, escape tokens", "MC_JsonMachine_esc.cfg")] + \
+                     ([("parser state machine, member-level objects", "MC_JsonMachine_obj.cfg")] if thorough else []):
+        runs.append((name, cfg, run_tlc("MC_JsonMachine.tla", cfg, D, workers=1, timeout=2400, work_id="c13mm", heap="6g")))
+    return runs, lane_sens(MACHINE_SENS, "MC_JsonMachine.tla")
 
 
 def run(tier, replay):
@@ -183,33 +200,47 @@ def run(tier, replay):
     with open(ser_path, "w") as f:
         f.write(p.stdout)
     ser_sum = [x for x in jsonl(p.stderr) if x.get("summary")][0]
+    idx_path = os.path.join(wd, "idx.ndjson")
+    p = run_bin(jb, ["idx", str(2000 if thorough else 400)])
+    if p.returncode != 0:
+        raise ToolError("json idx failed: " + p.stderr[-1000:])
+    with open(idx_path, "w") as f:
+        f.write(p.stdout)
 
-    # TLC: the big space (5 workers) || the other spaces (1) || small/sensitivity/trace validation (<= 2): 8 in total
+    # TLC: the big space (4 workers, thorough 5) || the other spaces (1) || small/sensitivity/trace validation (<= 2) || state machine (1): 8 in total
     with cf.ThreadPoolExecutor(max_workers=4) as ex:
-        f_main = ex.submit(lane_spaces, jb, limit, main_space, 5, "m")
+        f_main = ex.submit(lane_spaces, jb, limit, main_space, 5 if thorough else 4, "m")
         f_side = ex.submit(lane_spaces, jb, limit, side_spaces, 1, "x")
 
         def lane2():
             small = run_tlc("MC_Json8259.tla", "MC_Json8259_small.cfg", D, workers=1, timeout=900, work_id="c13c")
             sens = lane_sens(SENS)
-            dv = trace_validate(docs_path, wid="c13d")
+            dv = trace_validate(docs_path, wid="c13d", par=1 if thorough else 2)
             sv = trace_validate(ser_path, wid="c13e")
-            return small, sens, dv, sv
+            iv = trace_validate(idx_path, wid="c13i")
+            return small, sens, dv, sv, iv
         f_l2 = ex.submit(lane2)
-        small, sens, (doc_lines, doc_rej, doc_runs), (ser_lines, ser_rej, ser_runs) = f_l2.result()
+        f_mach = ex.submit(lane_machine, thorough)
+        small, sens, (doc_lines, doc_rej, doc_runs), (ser_lines, ser_rej, ser_runs), (idx_lines, idx_rej, idx_runs) = f_l2.result()
         side = f_side.result()
+        mach_runs, mach_sens = f_mach.result()
         main = f_main.result()
 
     # 1. model checking results
-    # Vacuity guard.  `-coverage 1` is not usable on this module: TLC's cost model inlines every operator
+    # Vacuity guard.  The state machine (JsonMachine) runs with -coverage and every action must have been taken.
+    # On Json8259 itself `-coverage 1` is not usable: TLC's cost model inlines every operator
     # application and on the mutually recursive descent operators that takes minutes and > 4 GB even for 343
     # states.  Instead: every space must have exactly sum(|Alphabet|^k) states (the single action Extend was
     # taken for every token at every length), the harness must have enumerated the same number, the accepted
     # set must be non-empty with depths on both sides of a probed limit, and all 11 sensitivity configs must fail.
     ctx.add_tlc("small space, each invariant separately", small)
     ctx.require_tlc_ok("MC_Json8259_small", small)
-    for cfg, dev, r in sens:
-        ctx.add_tlc("sensitivity: Dev={%s} must violate" % dev, r)
+    for name, cfg, r in mach_runs:
+        ctx.add_tlc("%s (%s)" % (name, cfg), r)
+        ctx.require_tlc_ok(cfg, r)
+    ctx.require_cover("MC_JsonMachine_live", mach_runs[0][2], MACHINE_ACTIONS)
+    for cfg, dev, r in sens + mach_sens:
+        ctx.add_tlc("sensitivity: Dev={%s} must violate (%s)" % (dev, cfg), r)
         if r.violation != "invariant":
             raise ToolError("model lost sensitivity: Dev={%s} no longer violates (%s)" % (dev, cfg))
 
@@ -308,6 +339,17 @@ def run(tier, replay):
              "why": [w for _, w in recs][:50]})
     elif ser_sum["reparse_not_equal"]:
         raise ToolError("harness saw %d outputs that do not re-parse to the value but logged none" % ser_sum["reparse_not_equal"])
+
+    # extension beyond the property text (DESIGN section 6): indexing.rs against Json8259 Part 5.  Reported in the
+    # evidence and on stderr; never a violation of C13, whose statement is about parse and serialize only.
+    for t in idx_runs:
+        ctx.add_tlc("extension: indexing operations validated against Part 5 (%d records)" % (t.generated - 1), t)
+    ctx.add_part("extension: indexing (get/get_mut/Index/IndexMut), not gating", records=len(idx_lines),
+                 not_explained_by_model=[{"record": json.loads(idx_lines[i]), "op": why} for i, why in idx_rej[:5]],
+                 not_explained_count=len(idx_rej))
+    if idx_rej:
+        vlib.log("NOTE (not part of C13): %d indexing record(s) differ from the model of indexing.rs, first: %s" % (len(idx_rej), idx_rej[0][1]))
+    os.remove(idx_path)
 
     # 5. self-test of the binding (tool error if the machinery does not notice a corruption)
     selftest(ctx, jb, limit, side[0][2], doc_lines, ser_lines, wd)
